@@ -3,7 +3,11 @@
 Workload: the whole catalogue ``native_random_number_generators`` (21 entries) x a grid of
 requested sizes {1,2,7,50} x {2,4,10,100,1000} plus seeded random sizes; a sweep of uniform
 inputs over (0,1) pushed through ``draws.get_normal_wichura_draws(uniform_numbers=u)``; mixed
-draw tables requested through ``Database.generate_draws``.
+draw tables requested through ``Database.generate_draws``; request *histories*: 5-30 requests in one
+process, random order, repeated (entry, n, R) triples, related entries at the same sizes, tables in
+between, and a client that overwrites received arrays with NaN (every request judged like a fresh one,
+Halton entries bit-identical to the same request in a process without history, arrays delivered earlier
+must not change).
 
 Monitors (all at the boundary, the generators run unmodified):
   * the array each ``generator(n, R)`` returns (shape, finiteness, support);
@@ -35,7 +39,13 @@ RULE = (
     'min(u,1-u) = exp(-25), regular grid, uniform random) given to get_normal_wichura_draws(uniform_numbers=u) under a '
     'random (sample size x draws) factorisation, with and without antithetic=True; distinct = (kind, seed, index). '
     'database cases = random mixes of entries (and wrong-shape user generators) through Database.generate_draws, '
-    'cross-sectional and panel; distinct = (types, n, R)'
+    'cross-sectional and panel; distinct = (types, n, R). history cases = inside ONE process a seeded sequence of 5-30 '
+    'requests (catalogue generators called directly and Database.generate_draws on kept databases) in random order over '
+    'the catalogue, with repeated (entry, n, R) triples, related entries (NORMAL_x / UNIFORM_x / UNIFORMSYM_x) at the same '
+    'sizes, and a hostile client that overwrites arrays it received with NaN before identical requests follow; every '
+    'request is judged like a fresh one, deterministic (Halton) entries must be bit-identical to the same request made in '
+    'a process without history (forked from the idle worker), arrays handed out earlier must not change afterwards; '
+    'non-trivial = at least 5 requests judged; distinct = (sizes, steps)'
 )
 ASSUMPTIONS = [
     'numpy.random.uniform delivers U[0,1) numbers (the plain uniform entries are judged as "exactly the numbers numpy '
@@ -50,7 +60,7 @@ ASSUMPTIONS = [
     'where the published region test |u-1/2| <= 0.425 and the test abs(u) <= 0.45 disagree (u < 0.075 or 0.45 < u <= '
     '0.925) and under C11/quantile-inaccurate-* elsewhere; the judgement itself is the same everywhere',
 ]
-MIN_DISTINCT = {'quick': 5000, 'thorough': 30000}
+MIN_DISTINCT = {'quick': 5200, 'thorough': 32000}
 CASE_TIMEOUT = 900  # watchdog only (inconclusive, never a verdict); big cases take ~8 s on an idle machine
 
 EXPECTED_NAMES = [
@@ -70,7 +80,7 @@ SYM_ATOL = 5e-16
 def cases(seed, tier):
     from ..gen import c11_work as w
 
-    return w.size_cases(seed, tier) + w.quantile_cases(seed, tier) + w.db_cases(seed, tier)
+    return w.size_cases(seed, tier) + w.quantile_cases(seed, tier) + w.db_cases(seed, tier) + w.history_cases(seed, tier)
 
 
 # --------------------------------------------------------------------------
@@ -590,6 +600,192 @@ def _run_database(case, rec):
             rec.violation('C11/draw-table-slice-differs-from-generator-output', f'slice {j} ({types[j]}) of the table is not what the generator returned', w)
 
 
+# --------------------------------------------------------------------------
+# request histories: many requests in one process, repeated triples, a client that scribbles on what it received
+# --------------------------------------------------------------------------
+def _fresh_reference(name, n, R):
+    """The same request in a process that has no request history (a fork of this one taken before the history starts
+    would inherit nothing either, but the reference must not itself become part of the history: separate child)."""
+    from ..worker import run_forked
+
+    def f(_):
+        from biogeme import native_draws
+
+        out = native_draws.native_random_number_generators[name].generator(n, R)
+        return {'shape': list(np.shape(out)), 'values': [float(v) for v in np.asarray(out, dtype=float).ravel()]}
+
+    r = run_forked(f, None, 120)
+    if 'values' not in r:
+        return None
+    return np.array(r['values'], dtype=float).reshape(r['shape'])
+
+
+def _run_history(case, rec):
+    import pandas as pd
+    from biogeme import native_draws
+    from biogeme.database import Database
+    from biogeme.exceptions import BiogemeError
+    from ..gen import c11_work
+    from ..oracle import c11_ref
+
+    cat = native_draws.native_random_number_generators
+    names = [nm for nm in EXPECTED_NAMES if nm in cat]
+    sizes, steps = c11_work.history_plan(case, names)
+    advs = {nm: c11_ref.parse_entry(nm, cat[nm].description) for nm in names}
+    deterministic = {nm for nm in names if advs[nm].get('kind') == 'halton'}
+
+    # references from processes without history, one per deterministic triple, BEFORE the history starts
+    refs = {}
+    for st in steps:
+        for t in ([st['type']] if st['op'] == 'gen' else st['types']):
+            if t in deterministic and (t, st['size']) not in refs:
+                n, R = sizes[st['size']]
+                refs[(t, st['size'])] = _fresh_reference(t, n, R)
+                if refs[(t, st['size'])] is None:
+                    rec.inconc(f'no fresh-process reference for {t}({n},{R})')
+
+    dbs = {}
+    held = []  # arrays handed out earlier: [label, object, snapshot, poisoned_by_client, reported]
+    seen = {}
+    poisoned = set()
+    hist = []
+    judged = 0
+    saved = dict(cat)
+    for k, st in enumerate(steps):
+        n, R = sizes[st['size']]
+        results = []  # (entry name, array object as returned, spy events)
+        table = None
+        label = (st['type'] if st['op'] == 'gen' else 'generate_draws' + str(st['types'])) + f'({n},{R})'
+        wit0 = {'n': n, 'R': R, 'step': k, 'request': label, 'history_before': hist[-14:], 'history_length': len(hist)}
+        np.random.seed((case['seed'] * 7919 + case['j'] * 101 + k) % (2**32))
+        if st['op'] == 'gen':
+            SPIES.reset()
+            try:
+                out = cat[st['type']].generator(n, R)
+            except BaseException as e:  # noqa
+                rec.violation('C11/generator-raises', f'{label} raised {type(e).__name__}: {e} (step {k} of a request history)', wit0)
+                hist.append(label + ' -> raised')
+                continue
+            results.append((st['type'], out, list(SPIES.ev)))
+        else:
+            rec.c('history_db_calls')
+            if st['size'] not in dbs:
+                try:
+                    dbs[st['size']] = Database(f'c11h{st["size"]}', pd.DataFrame({'x': [float(i) for i in range(n)]}))
+                except BaseException as e:  # noqa
+                    rec.inconc(f'history database could not be built: {type(e).__name__}: {e}')
+                    continue
+            got = []
+
+            def recorder(nm, g):
+                def f(a, b):
+                    SPIES.reset()
+                    o = g(a, b)
+                    got.append((nm, o, list(SPIES.ev), np.array(o, copy=True) if isinstance(o, np.ndarray) else None))
+                    return o
+
+                return f
+
+            vnames = [f'v{i}' for i in range(len(st['types']))]
+            err = None
+            try:
+                for nm in list(cat):
+                    cat[nm] = native_draws.RandomNumberGeneratorTuple(generator=recorder(nm, saved[nm].generator), description=saved[nm].description)
+                try:
+                    table = dbs[st['size']].generate_draws(dict(zip(vnames, st['types'])), vnames, R)
+                except BaseException as e:  # noqa
+                    err = e
+            finally:
+                cat.clear()
+                cat.update(saved)
+            results = [(nm, o, ev) for nm, o, ev, _ in got]
+            if err is not None:
+                w = dict(wit0)
+                w['shapes_returned_by_generators'] = [list(np.shape(o)) for _, o, _, _ in got]
+                mech = 'C11/generate_draws-refuses-catalogue-entry' if isinstance(err, BiogemeError) else 'C11/generate_draws-raises-' + type(err).__name__
+                rec.violation(mech, f'{label} (step {k} of a request history): {type(err).__name__}: {err}', w)
+            else:
+                rec.ev()
+                kk = len(st['types'])
+                if not isinstance(table, np.ndarray) or table.shape != (n, R, kk):
+                    rec.violation('C11/draw-table-shape', f'{label}: table shape {getattr(table, "shape", None)}, expected {(n, R, kk)}', wit0)
+                elif [g[0] for g in got] != st['types'] or any(g[3] is None or not np.array_equal(table[:, :, i], g[3]) for i, g in enumerate(got)):
+                    rec.violation('C11/draw-table-slice-differs-from-generator-output', f'{label}: the table is not made of what the generators returned', wit0)
+        # -- every array delivered by this request is judged like a fresh request --------------------
+        for nm, out, ev in results:
+            key = (nm, st['size'])
+            SPIES.ev = ev
+            wit = dict(wit0)
+            wit.update({'name': nm, 'description': saved[nm].description, 'times_requested_before': seen.get(key, 0),
+                        'client_overwrote_an_identical_request_before': key in poisoned})
+            rec.c('history_requests')
+            if seen.get(key, 0):
+                rec.c('history_repeated_triples')
+            if key in poisoned:
+                rec.c('history_requests_after_client_overwrote_same_triple')
+            fam = advs[nm]['family']
+            for f2 in H_RELATED:
+                if f2 != fam and (f2 + nm[len(fam):], st['size']) in seen:
+                    rec.c('history_related_entry_same_size_requested_before')
+                    break
+            ok = _judge_one(rec, nm, advs[nm], n, R, out, wit)
+            if ok:
+                judged += 1
+            if nm in deterministic and refs.get(key) is not None:
+                rec.ev()
+                rec.c('history_deterministic_compared_to_fresh_process')
+                ref = refs[key]
+                same = isinstance(out, np.ndarray) and out.shape == ref.shape and np.array_equal(np.asarray(out, dtype=float), ref)
+                if not same:
+                    w = dict(wit)
+                    w.update({'returned_shape': list(np.shape(out)), 'reference_shape': list(ref.shape),
+                              'returned_head': np.asarray(out, dtype=float).ravel()[:6], 'reference_head': ref.ravel()[:6]})
+                    rec.violation('C11/history-deterministic-entry-differs-from-request-without-history',
+                                  f'{nm}({n},{R}) at step {k} of a request history is not bit-identical to the same request in a process without history', w)
+            seen[key] = seen.get(key, 0) + 1
+        # -- arrays handed out earlier must still be what they were ------------------------------------
+        for h in held:
+            if h[3] or h[4]:
+                continue
+            if h[1].shape != h[2].shape or not np.array_equal(h[1], h[2]):
+                h[4] = True
+                w = dict(wit0)
+                w.update({'earlier_request': h[0], 'shape_when_delivered': list(h[2].shape), 'shape_now': list(h[1].shape)})
+                rec.violation('C11/history-array-delivered-earlier-changed-by-later-request',
+                              f'the array delivered for {h[0]} changed (shape {h[2].shape} -> {h[1].shape}) while {label} was served', w)
+        rec.ev()
+        rec.c('history_earlier_arrays_rechecked', len(held))
+        for nm, out, _ in results:
+            if isinstance(out, np.ndarray):
+                held.append([f'{nm}({n},{R}) at step {len(hist)}', out, np.array(out, copy=True), False, False])
+        if table is not None and isinstance(table, np.ndarray):
+            held.append([label + f' at step {len(hist)}', table, np.array(table, copy=True), False, False])
+        # -- hostile client ----------------------------------------------------------------------------
+        did = ''
+        if st['poison']:
+            target = table if st['op'] == 'db' else (results[0][1] if results else None)
+            if isinstance(target, np.ndarray) and target.dtype.kind == 'f':
+                try:
+                    target.fill(np.nan)
+                    did = ' [client then overwrote it with NaN]'
+                    rec.c('history_arrays_overwritten_by_client')
+                    for h in held:
+                        if h[1] is target or np.shares_memory(h[1], target):
+                            h[3] = True
+                    for nm, _, _ in results:
+                        poisoned.add((nm, st['size']))
+                except ValueError:
+                    rec.c('history_returned_array_not_writeable')
+        hist.append(label + did)
+    if judged >= 5:
+        rec.key(['H', sizes, steps])
+        rec.c('history_cases')
+        rec.sample({'history_sizes': sizes, 'history_requests': hist[:8]})
+
+
+H_RELATED = ('UNIFORMSYM', 'UNIFORM', 'NORMAL')
+
+
 def run_case(case):
     rec = Rec(case)
     SPIES.install()
@@ -597,6 +793,8 @@ def run_case(case):
         _run_types(case, rec)
     elif case['mode'] == 'quantile':
         _run_quantile(case, rec)
+    elif case['mode'] == 'history':
+        _run_history(case, rec)
     else:
         _run_database(case, rec)
     return rec.out()
@@ -611,7 +809,9 @@ def finalize(cov, tier):
             'antithetic_compared', 'sym_vs_unit_compared', 'plain_uniform_compared', 'normal_quantile_compared',
             'base_pairs_compared', 'support_compared', 'db_tables_compared', 'db_wrong_shape_refused',
             'quantile_antithetic_compared', 'quantile_points_central', 'quantile_points_tail_lower', 'quantile_points_tail_upper',
-            'quantile_points_fartail_lower', 'quantile_points_fartail_upper']
+            'quantile_points_fartail_lower', 'quantile_points_fartail_upper', 'history_cases', 'history_repeated_triples',
+            'history_db_calls', 'history_arrays_overwritten_by_client', 'history_requests_after_client_overwrote_same_triple',
+            'history_deterministic_compared_to_fresh_process', 'history_related_entry_same_size_requested_before']
     for k in need:
         if cov.get(k, 0) == 0:
             out.append(f'monitor never evaluated: {k}')
